@@ -157,10 +157,12 @@ def make_pool():
     P["ch_rl"] = ["C:maj", "G:7/3", "N"]
     P["ch_ei"] = a([[0.0, 1.5], [1.5, 3.0]])
     P["ch_el"] = ["C", "G:maj(9)"]
-    P["ch_l2r"] = ["C:maj", "A:min7", "X", "D:sus4(b7)"]
-    P["ch_l2e"] = ["C", "A:min", "G", "D:7"]
-    P["cmp"] = a([1.0, 0.0, -1.0, 1.0])
-    P["wts"] = a([1.0, 2.0, 1.0, 0.5])
+    P["ch_l2r"] = ["C:maj", "A:min7", "X", "D:sus4(b7)", "A:9", "A:11", "G:maj13"]
+    P["ch_l2e"] = ["C", "A:min", "G", "D:7", "A:7", "A:7", "G:maj7"]
+    P["ch_xi"] = a([[0.0, 1.0], [1.0, 2.0], [2.0, 3.0]])
+    P["ch_xl"] = ["G:9", "G:11", "G:7"]
+    P["cmp"] = a([1.0, 0.0, -1.0, 1.0, 1.0, 0.0, 1.0])
+    P["wts"] = a([1.0, 2.0, 1.0, 0.5, 1.0, 1.0, 2.0])
     P["bitmap"] = a([1, 0, 0, 0, 1, 0, 0, 1, 0, 0, 0, 0])
     P["bitmaps"] = a([[1, 0, 0, 0, 1, 0, 0, 1, 0, 0, 0, 0], [1, 0, 0, 1, 0, 0, 0, 1, 0, 0, 0, 0]])
     P["roots"] = a([0, 7])
@@ -171,6 +173,10 @@ def make_pool():
     o3 = [(0.0, 60.0), (0.5, 62.0), (1.0, 64.0)]
     P["pat_r"] = [[list(o1), list(o2)], [list(o3)]]
     P["pat_e"] = [[list(o2)], [list(o3), list(o1)]]
+    o4 = [(20.0, 70.0), (20.5, 71.0), (21.0, 73.0), (21.5, 75.0)]
+    o5 = [(30.0, 70.0), (30.5, 71.0), (31.0, 73.0), (31.5, 75.0)]
+    P["pat_r2"] = [[list(o1)], [list(o4)]]
+    P["pat_e2"] = [[list(o5)], [list(o2)], [list(o3)]]
     P["pat_empty"] = []
     # hierarchy
     P["h_ri"] = [a([[0.0, 4.0]]), a([[0.0, 2.0], [2.0, 4.0]])]
@@ -367,6 +373,12 @@ def descriptors():
     for f in ("directional_hamming_distance", "overseg", "underseg", "seg"):
         d("chord.%s" % f, (lambda P, f=f: getattr(chord, f)(P["ch_ri"], P["ch_ei"])), ["ch_ri", "ch_ei"])
     d("chord.merge_chord_intervals", lambda P: chord.merge_chord_intervals(P["ch_ri"], P["ch_rl"]), ["ch_ri", "ch_rl"])
+    d("chord.merge_chord_intervals[ext]", lambda P: chord.merge_chord_intervals(P["ch_xi"], P["ch_xl"]),
+      ["ch_xi", "ch_xl"], risky=True)
+    d("chord.tetrads[ext]", lambda P: chord.tetrads(P["ch_xl"], ["G:7", "G:7", "G:9"]), ["ch_xl"], risky=True)
+    d("chord.evaluate[ext]", lambda P: chord.evaluate(P["ch_xi"], P["ch_xl"], P["ch_ei"], P["ch_el"]),
+      ["ch_xi", "ch_xl", "ch_ei", "ch_el"], risky=True)
+    d("chord.encode_many[reduce]", lambda P: chord.encode_many(P["ch_xl"], True), ["ch_xl"], risky=True)
     d("chord.evaluate", lambda P: chord.evaluate(P["ch_ri"], P["ch_rl"], P["ch_ei"], P["ch_el"]),
       ["ch_ri", "ch_rl", "ch_ei", "ch_el"], risky=True)
     d("chord.evaluate[adjust]", lambda P: chord.evaluate(P["ch_ri"], P["ch_rl"], P["s_ei2"], P["ch_el"]),
@@ -375,6 +387,9 @@ def descriptors():
     for f in ("validate", "standard_FPR", "establishment_FPR", "occurrence_FPR", "three_layer_FPR",
               "first_n_three_layer_P", "first_n_target_proportion_R", E):
         d("pattern.%s" % f, (lambda P, f=f: getattr(pattern, f)(P["pat_r"], P["pat_e"])), ["pat_r", "pat_e"])
+    for f in ("occurrence_FPR", "establishment_FPR", "three_layer_FPR", E):
+        d("pattern.%s[2x3]" % f, (lambda P, f=f: getattr(pattern, f)(P["pat_r2"], P["pat_e2"])), ["pat_r2", "pat_e2"],
+          risky=(f == "occurrence_FPR"))
     d("pattern.evaluate[kw]", lambda P: pattern.evaluate(P["pat_r"], P["pat_e"], **P["kw_pat"]),
       ["pat_r", "pat_e", "kw_pat"], risky=True)
     # hierarchy
@@ -403,6 +418,12 @@ def descriptors():
       ["s_ri", "s_rl"], risky=True)
     d("util.adjust_intervals[pad-start]", lambda P: util.adjust_intervals(P["s_ei2"], P["s_el2"], t_min=0.0, t_max=None),
       ["s_ei2", "s_el2"], risky=True)
+    d("util.adjust_intervals[t_min=None,clip]", lambda P: util.adjust_intervals(P["s_ri"], P["s_rl"], t_min=None, t_max=3.0),
+      ["s_ri", "s_rl"], risky=True)
+    d("util.adjust_intervals[clip-both]", lambda P: util.adjust_intervals(P["s_ri"], P["s_rl"], t_min=0.5, t_max=3.0),
+      ["s_ri", "s_rl"], risky=True)
+    d("util.adjust_events[t_min=None]", lambda P: util.adjust_events(P["ev4"], P["ev4_l"], t_min=None, t_max=6.0),
+      ["ev4", "ev4_l"], risky=True)
     d("util.adjust_intervals[nolabels]", lambda P: util.adjust_intervals(P["s_ei2"], None, t_min=0.0, t_max=7.0),
       ["s_ei2"])
     d("util.adjust_events", lambda P: util.adjust_events(P["ev4"], P["ev4_l"], t_min=0.0, t_max=5.0),
@@ -470,10 +491,45 @@ def do_call(name, P):
 
 
 def heap(P, names=None):
-    return dg([(n, P[n]) for n in (names if names is not None else P)]) + globals_digest()
+    """digest of the argument objects (the part of the heap the property forbids to change)"""
+    return dg([(n, P[n]) for n in (names if names is not None else P)])
 
 
 _BASE = {}
+_G0 = [None]
+
+
+def _snapshot_globals():
+    import copy
+    snap = {}
+    for m in MODULES:
+        for n, v in vars(m).items():
+            if not n.startswith("__") and isinstance(v, (dict, list, set, np.ndarray)):
+                snap[(m, n)] = copy.deepcopy(v)
+    return snap
+
+
+def _restore_globals(snap):
+    import copy
+    for (m, n), v in snap.items():
+        cur = getattr(m, n, None)
+        if isinstance(cur, dict):
+            cur.clear()
+            cur.update(copy.deepcopy(v))
+        elif isinstance(cur, list):
+            cur[:] = copy.deepcopy(v)
+        elif isinstance(cur, set):
+            cur.clear()
+            cur.update(copy.deepcopy(v))
+        elif isinstance(cur, np.ndarray) and cur.shape == v.shape:
+            cur[...] = v
+    for m in MODULES:
+        for n in [n for n, v in vars(m).items() if not n.startswith("__")
+                  and isinstance(v, (dict, list, set)) and (m, n) not in snap]:
+            delattr(m, n)            # a module-level container that did not exist initially
+
+
+_SNAP = [None]
 
 
 def baseline(name):
@@ -486,6 +542,11 @@ def baseline(name):
 # ------------------------------------------------------------------------------------------ histories
 def check_history(acc, hist):
     """Run the history on one shared pool; invariant after every step."""
+    if _SNAP[0] is None:
+        _SNAP[0] = _snapshot_globals()
+        _G0[0] = globals_digest()
+    elif globals_digest() != _G0[0]:
+        _restore_globals(_SNAP[0])        # every history starts from the initial module state
     P = make_pool()
     h0 = heap(P)
     for i, name in enumerate(hist):
@@ -504,9 +565,14 @@ def check_history(acc, hist):
             return
         if h_args != heap(make_pool(), uses):
             changed = [n for n in uses if dg(P[n]) != dg(make_pool()[n])]
-            acc.violation("inputs-unmodified", name, case, observed={"changed_pool_objects": changed,
-                                                                     "globals_changed": not changed})
+            acc.violation("inputs-unmodified", name, case, observed={"changed_pool_objects": changed})
             return
+        g = globals_digest()
+        if g != _G0[0]:
+            # module-level state moved (e.g. a cache was filled): allowed as long as no result ever changes;
+            # it is a NEW STATE of the exploration: every later step of this history runs from it and is still
+            # compared with the initial-heap baseline.  Counted; restored before the next history.
+            acc.counters["module_state_changed_by:%s" % name] += 1
     if full != h0:
         acc.violation("inputs-unmodified", hist[-1], {"kind": "history", "hist": list(hist), "step": len(hist) - 1},
                       observed="heap digest changed outside the call's arguments")
@@ -531,19 +597,24 @@ def shard_hist(arg):
 
 # ------------------------------------------------------------------------------------------ poison seam
 def check_poison(acc, name):
-    try:
-        from mc import env
-    except ImportError:
-        acc.counters["poison_seam_unavailable"] += 1
-        return
+    """the environment's answer to every np.empty / np.empty_like inside mir_eval is enumerated over two poison
+    fills (all task modules at once); results must be identical to each other and to the unpoisoned baseline"""
+    import contextlib
+    from mc import env
     outs = []
-    for poison in (7.25e300, -3.5e-300):
+    used = 0
+    for poison in env.POISONS:
         P = make_pool()
-        with env.poisoned_empty(separation, poison):
+        with contextlib.ExitStack() as st:
+            proxies = [st.enter_context(env.poisoned_empty(m, poison)) for m in MODULES if hasattr(m, "np")]
             acc.transitions += 1
             outs.append(do_call(name, P))
-    if outs[0] != outs[1]:
-        acc.violation("no-uninitialised-memory", name, {"kind": "poison", "name": name}, observed=outs)
+            used += sum(p.calls for p in proxies)
+    if used:
+        acc.counters["poison.descriptors_that_allocate_with_np_empty"] += 1
+    if outs[0] != outs[1] or outs[0] != baseline(name):
+        acc.violation("no-uninitialised-memory", name, {"kind": "poison", "name": name},
+                      observed={"poison_a": outs[0], "poison_b": outs[1], "unpoisoned": baseline(name)})
     acc.counters["poison_pairs_compared"] += 1
 
 
@@ -642,8 +713,8 @@ def run(run):
     d3 = [h for h in itertools.product(r3, repeat=3)]
     run.explore("depth-3 (aliasing-prone subset, %d descriptors)" % len(r3), __name__, "shard_hist",
                 core.chunks(d3, 64))
-    sep = [n for n in names if n.startswith("separation.") and n != "separation.validate"]
-    run.explore("np.empty poison x2 (separation)", __name__, "shard_poison", [[n] for n in sep])
+    run.explore("np.empty poison x2 (all modules, all descriptors)", __name__, "shard_poison",
+                core.chunks(light, 12) + [[n] for n in heavy])
     two_process_layer(run)
     run.require_nonvacuous("histories_sharing_an_argument_object")
     n_raise = sum(1 for n in names if baseline(n).startswith("raised"))
